@@ -105,18 +105,34 @@ let () =
         | Some "!" -> None
         | Some t -> Some (bytes_of_hex t)
         | None -> tablemiss := true; None in
+      (* opt:l<0|1>b<0|1>:<none|lex|rfc> : the encoder's (and the decoder's) two switches set independently *)
+      let opt = String.length codec >= 10 && String.sub codec 0 5 = "opt:l" in
+      let ol = opt && codec.[5] = '1' and ob = opt && codec.[7] = '1' in
+      let osort = if not opt then JSortLexical else
+          (match String.sub codec 9 (String.length codec - 9) with "none" -> JSortNone | "rfc" -> JSortRFC7049 | _ -> JSortLexical) in
       let eo = match codec with
         | "dagjson" -> dagjson_eopts
         | "dagjson:none" -> { je_links = true; je_bytes = true; je_sort = JSortNone }
         | "dagjson:rfc" -> { je_links = true; je_bytes = true; je_sort = JSortRFC7049 }
+        | _ when opt -> { je_links = ol; je_bytes = ob; je_sort = osort }
         | _ -> json_eopts in
-      let dop = if codec = "json" then json_dopts else dagjson_dopts in
+      let dop = if codec = "json" then json_dopts
+        else if opt then { jd_links = ol; jd_bytes = ob; jd_dont_parse_beyond = false; jd_max_depth = Z0 }
+        else dagjson_dopts in
+      (* Marshal meets the entries of a map in emission (sorted) order; the model's jenc encodes the values in
+         insertion order before sorting the encoded entries, so WHICH error comes first is read off the
+         pre-sorted tree encoded with no sorting (the bytes are the same either way: Proofs/JsonEnc.v) *)
+      let err_class () =
+        let vs = match osort with
+          | JSortNone -> v | JSortLexical -> sort_maps bytes_ltb v | JSortRFC7049 -> sort_maps rfc_ltb v in
+        match jenc fmt_float cid_str { je_links = ol; je_bytes = ob; je_sort = JSortNone } cid_ok vs with
+        | Err JELink -> "err:link|-" | Err JEBytes -> "err:bytes|-" | Err _ -> "err:other|-" | Ok _ -> "err:none|-" in
       let model_bytes =
         if codec = "json" then jenc_pretty fmt_float cid_str eo cid_ok O v
         else jenc fmt_float cid_str eo cid_ok v in
       let model_obs =
         match model_bytes with
-        | Err _ -> "err|-"
+        | Err _ -> if opt then err_class () else "err|-"
         | Ok bs ->
           "ok:" ^ hex_of_bytes bs ^ "|" ^
           (match jdecode parse_float_ocaml cid_parse dop bs with
@@ -169,6 +185,18 @@ let () =
                end
              end
            | _ -> fails := "malformed_obs" :: !fails);
+        (* the encoder's switches: links refused exactly when EncodeLinks is off, bytes exactly when EncodeBytes is off *)
+        if opt then begin
+          let rec has p (x : dm) = p x || (match x with
+              | DList l -> List.exists (has p) l | DMap m -> List.exists (fun (_, y) -> has p y) m | _ -> false) in
+          let has_link = has (function DLink _ -> true | _ -> false) v
+          and has_bytes = has (function DBytes _ -> true | _ -> false) v in
+          let starts p = String.length obs >= String.length p && String.sub obs 0 (String.length p) = p in
+          if starts "ok:" && has_link && not ol then fails := "link_not_refused" :: !fails;
+          if starts "ok:" && has_bytes && not ob then fails := "bytes_not_refused" :: !fails;
+          if starts "err:link" && (ol || not has_link) then fails := "link_refused" :: !fails;
+          if starts "err:bytes" && (ob || not has_bytes) then fails := "bytes_refused" :: !fails
+        end;
         if !tablemiss then fails := "table_miss" :: !fails;
         let fl = List.sort_uniq compare !fails in
         if fl = [] then "ok" else "fail:" ^ String.concat "," fl in
